@@ -224,12 +224,15 @@ func runC05(c *Ctx) {
 			if idx[1] == 1 {
 				stream = data // EOF arrives together with the last bytes
 			}
-			b := bound
+			b, maxPoint := bound, 1<<30
 			if len(data) > 9000 && q {
 				b = 1
 			}
+			if len(src.M.Keys()) > 40 {
+				b, maxPoint = 1, 40
+			}
 			var f *ev.Fail
-			n := env.Explore(b, func(ch *env.Chooser) bool {
+			n := env.ExploreLimited(b, maxPoint, func(ch *env.Chooser) bool {
 				r := &env.ScriptReader{Data: stream, C: ch, EOFStyle: idx[1]}
 				rb := roaring.New()
 				rep, err := rb.ReadFrom(r)
